@@ -1,0 +1,10 @@
+//go:build verif
+
+package core
+
+// Exports for the verification harness in /verif (build tag "verif" only).
+
+// VerifSetNonce exposes setNonce with the production TTL.
+func VerifSetNonce(nonce uint64, window []uint64) ([]uint64, error) {
+	return setNonce(nonce, window, defaultNonceTTL)
+}
